@@ -25,12 +25,24 @@ class C08(scen.WorldProp):
     def cases(self, rng, tier):
         n = 200 if tier == "quick" else 2000
         for i in range(n):
-            N = rng.choice([4, 6, 6, 8])
+            N = rng.choice([4, 6, 6, 8, 10, 12])
             named = rng.random() < 0.4
             name = "Wheatley" if named else None
             humans = sorted(rng.sample(range(1, N + 1), rng.randint(0, N - 1)))
             wbells = [b for b in range(1, N + 1) if b not in humans]
             spec = {"type": "plainhunt", "stage": N, "start_row": None}
+            if rng.random() < 0.3:
+                # a custom start row (shorter than, or as long as, the tower): every bell still has one owner and is
+                # struck once a row
+                k = rng.choice([N, N, N - 1, N - 2])
+                bells = list(range(1, k + 1))
+                rng.shuffle(bells)
+                if k >= 3 and rng.random() < 0.5:
+                    # (bells 1 and 2 next to each other, in that order: the row reads "...12...")
+                    bells = [b for b in bells if b not in (1, 2)]
+                    j = rng.randint(0, len(bells))
+                    bells[j:j] = [1, 2]
+                spec = {"type": "plainhunt", "stage": k, "start_row": "".join(gens.BELLS[b - 1] for b in bells)}
             ps = 60
             I = scen.interval(ps, N)
             row_t = I * (N + 0.5)
@@ -165,6 +177,15 @@ class C08(scen.WorldProp):
             pass
         # with assignments changing mid-turn a human may legitimately strike a bell Wheatley sampled
         # as its own (turn-start reading); the no-rejection clause is checked on static ownership
+        if req["churn"] == 0:
+            # static ownership: every bell is somebody's, so every row is struck complete - once per row each
+            own = sorted(b for b in range(1, sc["tower_size"] + 1) if timeline[-1][1].get(b))
+            mine = [b for (_, b, by) in strikes if by == "wheatley"]
+            k = len(own)
+            for i in range(0, len(mine) - len(mine) % k if k else 0, k):
+                if sorted(mine[i:i + k]) != own:
+                    return (f"Wheatley's bells are {own}; for row {i // k} it struck {mine[i:i + k]}: not each of them "
+                            f"exactly once")
         if reply["rejects"] and not human_touched_wheatley and req["churn"] == 0:
             return f"the server rejected {reply['rejects']} of Wheatley's strikes (wrong stroke)"
         return None
